@@ -4,6 +4,7 @@ package c20
 
 import (
 	"context"
+	"crypto/tls"
 	"errors"
 	"fmt"
 	"net"
@@ -33,6 +34,8 @@ type scenario struct {
 	Timeout   int        `json:"timeout_ms,omitempty"` // Dialer.Timeout, 0 = none
 	DialDelay int        `json:"netdial_delay_ms,omitempty"`
 	DialFail  bool       `json:"netdial_fails,omitempty"` // NetDial reports "connection refused" after its delay
+	Wrap      string     `json:"wrap,omitempty"`          // "" | tlsclient (wss + pass-through TLSClient) | wrapconn | both | tls-default (wss, crypto/tls client)
+	TLSNilCfg bool       `json:"tls_nil_config,omitempty"` // tls-default: Dialer.TLSConfig nil instead of {InsecureSkipVerify: true}
 	RBuf      int        `json:"rbuf,omitempty"`
 	WBuf      int        `json:"wbuf,omitempty"`
 	Peer      peerScript `json:"peer"`
@@ -86,6 +89,7 @@ type outcome struct {
 	Returned       bool
 	Err            error
 	ConnNil        bool
+	NotTop         bool // success, but the returned conn is not the outermost conn of the chain
 	BrNonNil       bool
 	TR             time.Duration // virtual time at which Dial returned
 	CtxErrAtReturn error
@@ -216,6 +220,28 @@ func bubble(sc *scenario, out *outcome) {
 		},
 	}
 
+	url := "ws://peer.test/c20"
+	var top net.Conn // the outermost conn of the chain handed to the handshake, when the harness built it
+	switch sc.Wrap {
+	case "tlsclient", "both", "tls-default":
+		url = "wss://peer.test/c20"
+	}
+	if sc.Wrap == "tlsclient" || sc.Wrap == "both" {
+		d.TLSClient = func(c net.Conn, hostname string) net.Conn {
+			top = conn.wrap("tlsclient", c)
+			return top
+		}
+	}
+	if sc.Wrap == "wrapconn" || sc.Wrap == "both" {
+		d.WrapConn = func(c net.Conn) net.Conn {
+			top = conn.wrap("wrapconn", c)
+			return top
+		}
+	}
+	if sc.Wrap == "tls-default" && !sc.TLSNilCfg {
+		d.TLSConfig = &tls.Config{InsecureSkipVerify: true}
+	}
+
 	var timers []*time.Timer
 	defer func() {
 		for _, t := range timers {
@@ -240,12 +266,13 @@ func bubble(sc *scenario, out *outcome) {
 	synctest.Wait()
 	n0 := runtime.NumGoroutine()
 
-	c, br, _, err := d.Dial(ctx, "ws://peer.test/c20")
+	c, br, _, err := d.Dial(ctx, url)
 
 	out.TR = time.Since(start)
 	out.Returned = true
 	out.Err = err
 	out.ConnNil = c == nil
+	out.NotTop = err == nil && c != nil && sc.Wrap != "tls-default" && ((top != nil && c != top) || (top == nil && c != net.Conn(conn)))
 	out.BrNonNil = br != nil
 	out.CtxErrAtReturn = ctx.Err()
 	out.AtReturn = conn.state()
@@ -435,6 +462,12 @@ func judge(sc *scenario, o *outcome) (v verdict) {
 			v.Violation = "Dial returned a nil error and a nil conn"
 		case !o.ConnObtained:
 			v.Violation = "Dial returned a nil error although NetDial gave it no conn"
+		case o.NotTop:
+			v.Violation = "Dial returned a nil error and a conn that is not the one TLSClient/WrapConn (or NetDial) returned last"
+		case st.LayerShut != "":
+			v.Violation = "Dial returned a nil error but had closed the conn (layer " + st.LayerShut + ")"
+		case st.LayerDL != "":
+			v.Violation = "Dial returned a nil error but left a deadline on the conn: layer " + st.LayerDL
 		case st.Closed:
 			v.Violation = "Dial returned a nil error but had closed the conn"
 		case !st.RD.IsZero() || !st.WD.IsZero():
@@ -442,6 +475,8 @@ func judge(sc *scenario, o *outcome) (v verdict) {
 		}
 	} else if o.ConnObtained && !st.Closed {
 		v.Violation = fmt.Sprintf("Dial returned error %q without closing the conn", o.Err)
+	} else if o.ConnObtained && st.LayerOpen != "" {
+		v.Violation = fmt.Sprintf("Dial returned error %q without closing the outer conn (layer %s never saw Close)", o.Err, st.LayerOpen)
 	}
 	if v.Violation != "" {
 		return
